@@ -110,12 +110,13 @@ func c01IsMeshType(pkg string, t ast.Expr) bool {
 
 // per-call evaluation context of one function body
 type c01Ctx struct {
-	w      *c01World
-	fn     *c01Func
-	defs   map[*ast.Object][]ast.Expr // every definition / assignment of a local
-	stores map[*ast.Object][]ast.Expr // everything stored INTO a local container: x[k] = e
-	busyV  map[*ast.Object]bool
-	rets   []ast.Expr
+	w        *c01World
+	fn       *c01Func
+	defs     map[*ast.Object][]ast.Expr // every definition / assignment of a local
+	stores   map[*ast.Object][]ast.Expr // everything stored INTO a local container: x[k] = e
+	busyV    map[*ast.Object]bool
+	rets     []ast.Expr
+	nakedRes *ast.Object // (Mesh, error) functions: the named mesh result, when a naked return was seen
 }
 
 func (c *c01Ctx) unknown(why string, n ast.Node) string {
@@ -169,9 +170,30 @@ func (c *c01Ctx) collect(body *ast.BlockStmt) {
 				}
 			case *ast.ReturnStmt:
 				if !inLit {
-					c.rets = append(c.rets, v.Results...)
-					if len(v.Results) == 0 {
-						c.rets = append(c.rets, nil)
+					if c.w.returnsMeshErr(c.fn) {
+						switch len(v.Results) {
+						case 2: // the mesh; the error is not a component
+							c.rets = append(c.rets, v.Results[0])
+						case 0:
+							// naked return: the named mesh result.  When it is never assigned it is the zero Mesh (the error path of the
+							// transformers): it shares nothing and allocates nothing, so it is no result to classify
+							var res *ast.Object
+							if ns := c.fn.decl.Type.Results.List[0].Names; len(ns) == 1 {
+								res = ns[0].Obj
+							}
+							if res == nil {
+								c.rets = append(c.rets, nil)
+							} else {
+								c.nakedRes = res
+							}
+						default: // return f(x): both results from one call
+							c.rets = append(c.rets, &ast.BadExpr{From: v.Pos()})
+						}
+					} else {
+						c.rets = append(c.rets, v.Results...)
+						if len(v.Results) == 0 {
+							c.rets = append(c.rets, nil)
+						}
 					}
 				}
 			case *ast.AssignStmt:
@@ -607,12 +629,28 @@ func (w *c01World) newCtx(f *c01Func) *c01Ctx {
 	if f.decl.Body != nil {
 		c.collect(f.decl.Body)
 	}
+	if c.nakedRes != nil && len(c.defs[c.nakedRes]) > 0 {
+		c.rets = append(c.rets, &ast.Ident{Name: c.nakedRes.Name, Obj: c.nakedRes})
+	}
 	return c
 }
 
 func (w *c01World) returnsMesh(f *c01Func) bool {
 	r := f.decl.Type.Results
-	return r != nil && len(r.List) == 1 && len(r.List[0].Names) <= 1 && c01IsMeshType(f.pkg, r.List[0].Type)
+	if r != nil && len(r.List) == 1 && len(r.List[0].Names) <= 1 && c01IsMeshType(f.pkg, r.List[0].Type) {
+		return true
+	}
+	return w.returnsMeshErr(f)
+}
+
+// (Mesh, error): the meshops Transformer methods
+func (w *c01World) returnsMeshErr(f *c01Func) bool {
+	r := f.decl.Type.Results
+	if r == nil || len(r.List) != 2 || len(r.List[0].Names) > 1 || len(r.List[1].Names) > 1 || !c01IsMeshType(f.pkg, r.List[0].Type) {
+		return false
+	}
+	id, ok := r.List[1].Type.(*ast.Ident)
+	return ok && id.Name == "error"
 }
 
 func (w *c01World) meshSummary(f *c01Func) *c01Mesh {
@@ -754,7 +792,7 @@ func c01Classes(repo, out string, args []string) error {
 					}
 				}
 				w.funcs[fd.Name.Name] = append(w.funcs[fd.Name.Name], f)
-				if isTarget && fd.Name.IsExported() && w.returnsMesh(f) && (fd.Recv == nil || f.isMesh[0]) {
+				if isTarget && fd.Name.IsExported() && w.returnsMesh(f) && (fd.Recv == nil || f.isMesh[0] || (w.returnsMeshErr(f) && fd.Name.Name == "Transform")) {
 					targets = append(targets, f)
 				}
 			}
